@@ -438,20 +438,73 @@ static int cfg_app_setsockopt(ares_socket_t s, ares_socket_opt_t o, const void *
   (void)s; (void)o; (void)v; (void)l; (void)ud;
   return 0;
 }
-/* incomplete=1: a mandatory member is missing, the call must be rejected and change nothing */
+/* the classic (pre-1.34) socket function table: no interface lookups at all */
+static ares_socket_t cfg_cl_socket(int d, int t, int p, void *u)
+{
+  (void)d;
+  (void)t;
+  (void)p;
+  (void)u;
+  errno = ENETUNREACH;
+  return ARES_SOCKET_BAD;
+}
+static int cfg_cl_close(ares_socket_t s, void *u)
+{
+  (void)s;
+  (void)u;
+  return 0;
+}
+static int cfg_cl_connect(ares_socket_t s, const struct sockaddr *a, ares_socklen_t l, void *u)
+{
+  (void)s;
+  (void)a;
+  (void)l;
+  (void)u;
+  errno = ENETUNREACH;
+  return -1;
+}
+static ares_ssize_t cfg_cl_recvfrom(ares_socket_t s, void *b, size_t l, int f, struct sockaddr *fr, ares_socklen_t *fl, void *u)
+{
+  (void)s;
+  (void)b;
+  (void)l;
+  (void)f;
+  (void)fr;
+  (void)fl;
+  (void)u;
+  errno = EAGAIN;
+  return -1;
+}
+static ares_ssize_t cfg_cl_sendv(ares_socket_t s, const struct iovec *v, int n, void *u)
+{
+  (void)s;
+  (void)v;
+  (void)n;
+  (void)u;
+  errno = ENETUNREACH;
+  return -1;
+}
+static const struct ares_socket_functions cfg_classic_funcs = { cfg_cl_socket, cfg_cl_close, cfg_cl_connect, cfg_cl_recvfrom, cfg_cl_sendv };
+
+/* incomplete=1: a mandatory member is missing, the call must be rejected and change nothing
+ * incomplete=2: complete but for the two optional interface lookups     incomplete=3: the classic table */
 static int cfg_install_private_ifaces(ares_channel_t *ch, int incomplete)
 {
   struct ares_socket_functions_ex sf;
+  if (incomplete == 3) {
+    ares_set_socket_functions(ch, &cfg_classic_funcs, NULL);
+    return ARES_SUCCESS;
+  }
   memset(&sf, 0, sizeof(sf));
   sf.version         = 1;
   sf.asocket         = cfg_app_socket;
-  sf.asetsockopt     = incomplete ? NULL : cfg_app_setsockopt;
+  sf.asetsockopt     = incomplete == 1 ? NULL : cfg_app_setsockopt;
   sf.aclose          = cfg_app_close;
   sf.aconnect        = cfg_app_connect;
   sf.arecvfrom       = cfg_app_recvfrom;
   sf.asendto         = cfg_app_sendto;
-  sf.aif_nametoindex = cfg_app_if_nametoindex;
-  sf.aif_indextoname = cfg_app_if_indextoname;
+  sf.aif_nametoindex = incomplete == 2 ? NULL : cfg_app_if_nametoindex;
+  sf.aif_indextoname = incomplete == 2 ? NULL : cfg_app_if_indextoname;
   return (int)ares_set_socket_functions_ex(ch, &sf, NULL);
 }
 
